@@ -6,6 +6,7 @@ import (
 	"fmt"
 	"os"
 	"path/filepath"
+	"sort"
 	"strings"
 	"testing"
 
@@ -444,10 +445,42 @@ func TestVerifC16Pools(t *testing.T) {
 			w.Count("configurations_refused", 1)
 			continue // only configurations the policy accepts are judged
 		}
+		if len(s.cfgs) == 2 {
+			x.evIndex = -1
+			rp := x.step("reconf:1")
+			if rp.panic != "" {
+				w.Report(mc.Violation{Property: "C14", Oracle: "panic", Signature: "panic@" + rp.where + ":reconf", Scenario: s.name, Detail: rp.panic})
+				continue
+			}
+			if rp.err != nil {
+				w.Count("updates_refused", 1)
+				continue
+			}
+			w.Count("updates_accepted", 1)
+		}
 		accepted++
 		post := x.snapshot()
 		for _, v := range c16JudgeTree(s, x, post) {
 			w.Report(v)
+		}
+		if len(s.cfgs) == 2 {
+			// differential: the same pools as a fresh start with the second configuration
+			fresh := &scenario{name: s.name + "/fresh", policy: s.policy, machine: s.machine, cfgs: []cfgSpec{s.cfgs[1]}, maxInc: 1}
+			if fx, err := newExec(fresh, scratchDir()); err == nil {
+				render := func(sn *snap) string {
+					var l []string
+					for _, p := range sn.TA.Pools {
+						l = append(l, fmt.Sprintf("%s<-%s cpus=%s mems=%s", p.Name, p.Parent, p.CPUs, p.Mems))
+					}
+					sort.Strings(l)
+					return strings.Join(l, "; ")
+				}
+				if a, b := render(post), render(fx.snapshot()); a != b {
+					w.Report(mc.Violation{Property: "C16", Oracle: "tree-after-update", Signature: "tree:differs-from-fresh-start", Scenario: s.name,
+						Trace:  []string{fmt.Sprintf("machine %+v: start with %s, update to %s", *s.machine, s.cfgs[0].label, s.cfgs[1].label)},
+						Detail: fmt.Sprintf("after the accepted update the pools are\n  %s\na fresh start with the same configuration builds\n  %s", a, b)})
+				}
+			}
 		}
 		if len(s.machine.Extras) > 0 || len(s.machine.Isolated) > 0 || s.machine.NodeMemKB != nil || len(post.TA.Pools) > 3 {
 			w.Res.Nontrivial++
@@ -464,7 +497,7 @@ func TestVerifC16Pools(t *testing.T) {
 }
 
 func c16JudgeTree(s *scenario, x *exec, post *snap) []mc.Violation {
-	v := &viols{prop: "C16", scn: s.name, trace: []string{fmt.Sprintf("machine %+v config %s", *s.machine, s.cfgs[0].label)}}
+	v := &viols{prop: "C16", scn: s.name, trace: []string{fmt.Sprintf("machine %+v config %s", *s.machine, s.name[strings.LastIndex(s.name, "/")+1:])}}
 	m := s.machine.Model()
 	pools := post.TA.Pools
 	byName := map[string]int{}
